@@ -20,9 +20,29 @@ RULE = ('random build programs over every operation class (each class appears be
         'then extension + unrolling of one side while the other is observed; non-trivial: >= 2 leaves and (nested or explicit relation or shared qubit)')
 
 
+def L(cls, q, **kw):
+    d = {'t': 'leaf', 'cls': cls, 'q': q, 'rel': None}
+    d.update(kw)
+    return d
+
+
+def fixed_cases():
+    """targeted shapes: sub-circuits that are value-equal but for their link identity (two parallel first blocks, a later
+    operation related to the first of them), parallel nested blocks inside a repeated block"""
+    env = {'READOUT': 2.0, 'MICROWAVE': 1.0, 'FLUX': 1.0, 'RESET': 2.0}
+    w = lambda q, d: L('Wait', [q], dur=['fixed', d], ch='ALL')
+    progs = [
+        [{'t': 'sub', 'reps': 1, 'body': [w(0, 1.0)]}, {'t': 'sub', 'reps': 1, 'body': [w(1, 3.0)]}, L('Rx90', [2], rel=['F', 0])],
+        [{'t': 'sub', 'reps': 1, 'body': [w(0, 3.0)]}, {'t': 'sub', 'reps': 1, 'body': [w(1, 1.0)]}, L('Rx90', [2], rel=['F', 1]), L('Ry90', [3], rel=['E', 0])],
+        [{'t': 'sub', 'reps': 2, 'body': [{'t': 'sub', 'reps': 1, 'body': [w(0, 1.0)]}, {'t': 'sub', 'reps': 1, 'body': [w(1, 3.0)]}, L('Rx90', [2], rel=['F', 0])]}],
+        [{'t': 'sub', 'reps': 2, 'body': [w(0, 1.0)]}, {'t': 'sub', 'reps': 2, 'body': [w(1, 2.0)]}, L('CPhase', [2, 3], rel=['S', 0]), L('Rx180', [2], rel=['F', 1])],
+    ]
+    return [{'prog': p, 'env': env, 'reg': {'k0': 1.0, 'k1': 2.0}, 'obs': ['copy']} for p in progs]
+
+
 def gen_cases(rng, tier):
     n = 160 if tier == 'quick' else 2500
-    cases = []
+    cases = fixed_cases()
     for _ in range(n):
         c = gen_case(rng, maxlen=rng.choice([3, 6, 10]))
         c['obs'] = ['copy']
